@@ -866,7 +866,7 @@ def rule_collect(ctx):
             lists = {n.func.value.id for n in ast.walk(lp) if isinstance(n, ast.Call) and isinstance(n.func, ast.Attribute) and n.func.attr == "append" and isinstance(n.func.value, ast.Name)}
             if len(lists) == 1:
                 lst = next(iter(lists))
-                lo, hi, jumps = count_appends(lp.body, lst)
+                lo, hi, jumps = count_appends(lp.body, lst, loop_body=True)
                 app = next(n for n in ast.walk(lp) if isinstance(n, ast.Call) and isinstance(n.func, ast.Attribute) and n.func.attr == "append")
                 guards = facts_at(prog, f, app, canon) - facts_at(prog, f, lp, canon)
                 inst["failure collection"] = {"loop": head(lp), "guards on the item": sorted(guards), "appends per item": [lo, hi], "jumps": [head(x) for x in jumps]}
@@ -1175,7 +1175,7 @@ def rule_fold(ctx):
     else:
         _, lp, lst = gen
         var = _target_names(lp.target)[-1]
-        lo, hi, jumps = count_appends(lp.body, lst)
+        lo, hi, jumps = count_appends(lp.body, lst, loop_body=True)
         app = next(x for x in ast.walk(lp) if isinstance(x, ast.Call) and isinstance(x.func, ast.Attribute) and x.func.attr == "append" and norm(x.func.value) == lst)
         if norm(lp.iter) == "self.schema.rules" and (lo, hi) == (1, 1) and not jumps and app.args and test_call_ok(app.args[0], var):
             r.ok()
@@ -1330,10 +1330,13 @@ def rule_once_c18(ctx):
     else:
         r.fail(Finding("R-ONCE/C18", "R-ONCE|schema.Schema.add_schema|append", f"{f.file}:{loop.lineno}", "exactly one rule must be appended per rule of the added schema, unconditionally", []))
     # the new path is root_path / rule.path
-    txt = ast.unparse(loop)
-    inst = {"re-rooting": "root_path / rule.path" in txt}
+    var = _target_names(loop.target)[-1]
+    rootp = f.params[2].name if len(f.params) > 2 else "root_path"
+    divs = [n for n in ast.walk(loop) if isinstance(n, ast.BinOp) and isinstance(n.op, ast.Div)]
+    good = [n for n in divs if norm(expand_aliases(f, n.left)) == rootp and norm(expand_aliases(f, n.right)) == f"{var}.path"]
+    inst = {"re-rooting": [norm(n) for n in divs]}
     r.instances.append(inst)
-    if "root_path / rule.path" in txt:
+    if good and len(good) == len(divs):
         r.ok()
     else:
         r.fail(Finding("R-ONCE/C18", "R-ONCE|schema.Schema.add_schema|path", f"{f.file}:{loop.lineno}", "the added rule's path must be `root_path / rule.path` (root on the left)", []))
@@ -1657,9 +1660,19 @@ def rule_guarded(ctx):
         return out
     for sb in sites:
         app = next((p_ for p_ in _parents(sb) if isinstance(p_, ast.Call) and isinstance(p_.func, ast.Attribute) and p_.func.attr == "append"), None)
+        at = sb
         if app is None:
-            continue
-        facts = facts_at(prog, f, sb, cf)
+            # hoisted into a local first (`key = ...kwargs["value"]` ... `out.append(key)`): judge at the append
+            st = stmt_of(sb)
+            if isinstance(st, ast.Assign) and st.value is sb and len(st.targets) == 1 and isinstance(st.targets[0], ast.Name):
+                v = st.targets[0].id
+                at = next((c for c in ast.walk(loop) if isinstance(c, ast.Call) and isinstance(c.func, ast.Attribute) and c.func.attr == "append"
+                           and len(c.args) == 1 and isinstance(c.args[0], ast.Name) and c.args[0].id == v), None)
+            else:
+                at = None
+            if at is None:
+                continue
+        facts = facts_at(prog, f, at, cf)
         etxt = cf(sb)
         kind = "map_or_list" if "list_condition" in norm(sb) or "map_condition" in norm(sb) else "map"
         want = conv.get("MapValue" if kind == "map" else "MapOrListValue")
